@@ -19,8 +19,16 @@ import (
 )
 
 // token alphabet of DESIGN §5 C16, simplest first
-var tokens = []string{"a", " ", "V", "\n", "fi", "-", "\u00AD", "\u00A0", "\u3000", "\u05D0"}
-var tokenNames = []string{"a", "SP", "V", "NL", "fi", "-", "SHY", "NBSP", "IDSP", "ALEF"}
+var tokens = []string{"a", " ", "V", "\n", "fi", "-", "\u00AD", "\u00A0", "\u3000", "\u05D0",
+	// punctuation (only in the punctuation family): under Justify the space after it gets its own stretch factor
+	".", ",", ";", ":", "!", ")", "A"}
+var tokenNames = []string{"a", "SP", "V", "NL", "fi", "-", "SHY", "NBSP", "IDSP", "ALEF", "DOT", "COMMA", "SEMI", "COLON", "BANG", "RPAR", "A"}
+
+// baseTokens is the size of the alphabet of the main families (the first tokens of the list)
+const baseTokens = 10
+
+// punctTokens: the alphabet of the punctuation family
+var punctTokens = []int{0, 1, 10, 11, 12, 13, 14, 15, 16}
 
 var (
 	fontOnce   sync.Once
@@ -431,39 +439,86 @@ func CheckLayout(r *fw.R, toks []int, c config) (result []lineInfo, dropped bool
 			if W == 0 || lastOfParagraph {
 				break
 			}
-			// natural width / stretch / shrink of the line as shown
+			// natural width / stretch / shrink of the line as shown. A space after a punctuation mark
+			// (optionally followed by a closing bracket or quote) stretches by the package's
+			// SentenceFactor / ColonFactor / SemicolonFactor / CommaFactor and shrinks by its inverse unless
+			// the mark ends an abbreviation; which spaces count as such is not part of the statement, so
+			// both extremes are computed (no space has a factor / every candidate has one) and the line
+			// is only judged where they agree
 			L, Y, Z := ind, 0.0, 0.0
+			Ymax, Zmin := 0.0, 0.0
 			firstVisible, lastVisible := leadingPad(in), trailingPad(in)
+			factorBefore := func(c int) float64 {
+				prev := []rune(in[:c])
+				k := len(prev) - 1
+				if k >= 0 && strings.ContainsRune(")]'\"", prev[k]) {
+					k--
+				}
+				if k < 0 {
+					return 1
+				}
+				switch prev[k] {
+				case '.', '!', '?':
+					return text.SentenceFactor
+				case ':':
+					return text.ColonFactor
+				case ';':
+					return text.SemicolonFactor
+				case ',':
+					return text.CommaFactor
+				}
+				return 1
+			}
 			for _, sp := range ln.spans {
 				for _, g := range sp.glyphs {
 					ch, _ := utf8.DecodeRuneInString(in[g.cluster:])
 					if text.IsSpace(ch) && g.cluster >= firstVisible && g.cluster < lastVisible {
+						f := 1.0
+						if !text.FrenchSpacing {
+							f = factorBefore(g.cluster)
+						}
 						L += g.nat
 						Y += g.nat * text.SpaceStretch
 						Z += g.nat * text.SpaceShrink
+						Ymax += g.nat * text.SpaceStretch * f
+						Zmin += g.nat * text.SpaceShrink / f
 					} else {
 						L += g.adv
 					}
 				}
 			}
-			ratio := 0.0
-			switch {
-			case L < W:
-				ratio = math.Inf(1)
-				if Y > 0 {
-					ratio = (W - L) / Y
+			ratioOf := func(Y, Z float64) float64 {
+				switch {
+				case L < W:
+					if Y > 0 {
+						return (W - L) / Y
+					}
+					return math.Inf(1)
+				case L > W:
+					if Z > 0 {
+						return (W - L) / Z
+					}
+					return math.Inf(-1)
 				}
-			case L > W:
-				ratio = math.Inf(-1)
-				if Z > 0 {
-					ratio = (W - L) / Z
-				}
+				return 0
 			}
-			if math.Abs(ratio+1) < 1e-6 || math.Abs(ratio-text.Tolerance) < 1e-6 {
+			ratio, ratio2 := ratioOf(Y, Z), ratioOf(Ymax, Zmin)
+			near := func(v float64) bool {
+				return math.Abs(v+1) < 1e-6 || math.Abs(v-text.Tolerance) < 1e-6
+			}
+			if near(ratio) || near(ratio2) {
 				r.Outcome("justify:ratio-too-close-to-a-limit(skipped)")
 				break
 			}
-			if ratio >= -1 && ratio <= text.Tolerance {
+			within := func(v float64) bool { return v >= -1 && v <= text.Tolerance }
+			if within(ratio) != within(ratio2) {
+				r.Outcome("justify:depends-on-the-punctuation-space-factors(either way accepted)")
+				if !(math.Abs(end-W) <= tol) && !(math.Abs(end-L) <= tol) {
+					viol("justified-line-neither-at-width-nor-unstretched"+sfx, "line %d ends at %.9g, width %g, natural end %.9g; %s", j, end, W, L, desc())
+				}
+				break
+			}
+			if within(ratio) {
 				r.Outcome("justify:line-within-tolerance")
 				if !(math.Abs(end-W) <= tol) {
 					viol("justified-line-within-tolerance-does-not-end-at-width"+sfx, "line %d ends at %.9g, width %g, needed ratio %.6g (L=%.6g Y=%.6g Z=%.6g); %s", j, end, W, ratio, L, Y, Z, desc())
@@ -853,13 +908,13 @@ func fmtTokens(toks []int) string {
 
 func family(faceMode, maxLen int) fw.Family {
 	return fw.Family{
-		Name: "strings x " + faceLabels[faceMode], N: seqCount(len(tokens), maxLen),
+		Name: "strings x " + faceLabels[faceMode], N: seqCount(baseTokens, maxLen),
 		Check: func(i int64, r *fw.R) {
 			loadFonts()
 			if fontErr != nil {
 				panic(fontErr)
 			}
-			toks := decode(i, len(tokens))
+			toks := decode(i, baseTokens)
 			if faceMode == 3 && len(toks) < 3 {
 				r.Outcome("rich-text-needs-3-tokens(skipped)")
 				return
@@ -883,7 +938,50 @@ func family(faceMode, maxLen int) fw.Family {
 			}
 		},
 		Desc: func(i int64) string {
-			toks := decode(i, len(tokens))
+			toks := decode(i, baseTokens)
+			return fmtTokens(toks) + " features=" + features(toks)
+		},
+	}
+}
+
+// punctFamily: strings over {a, space, . , ; : ! ) A}: sentence, colon, semicolon and comma spacing
+// of justified text (the space after a punctuation mark stretches by its own factor), closing
+// brackets and capitals before the mark.
+func punctFamily(faceMode, maxLen int) fw.Family {
+	k := len(punctTokens)
+	dec := func(i int64) []int {
+		d := decode(i, k)
+		for j := range d {
+			d[j] = punctTokens[d[j]]
+		}
+		return d
+	}
+	return fw.Family{
+		Name: "punctuation strings x " + faceLabels[faceMode], N: seqCount(k, maxLen),
+		Check: func(i int64, r *fw.R) {
+			loadFonts()
+			if fontErr != nil {
+				panic(fontErr)
+			}
+			toks := dec(i)
+			visible := 0
+			for _, t := range toks {
+				if !isDroppable([]rune(tokens[t])[0]) {
+					visible++
+				}
+			}
+			if visible >= 2 {
+				r.NontrivialIdx()
+			}
+			readShaped(toks, faceMode)
+			for _, w := range boxWidths {
+				for _, h := range haligns {
+					CheckLayout(r, toks, config{faceMode: faceMode, width: w, halign: h, indent: indents[0][0], stretch: indents[0][1]})
+				}
+			}
+		},
+		Desc: func(i int64) string {
+			toks := dec(i)
 			return fmtTokens(toks) + " features=" + features(toks)
 		},
 	}
@@ -899,13 +997,13 @@ func verticalFamily(faceMode, maxLen int, withMiddle bool) fw.Family {
 	}
 	const stretch = 0.25
 	return fw.Family{
-		Name: "vertical: strings x heights x valigns x " + faceLabels[faceMode], N: seqCount(len(tokens), maxLen),
+		Name: "vertical: strings x heights x valigns x " + faceLabels[faceMode], N: seqCount(baseTokens, maxLen),
 		Check: func(i int64, r *fw.R) {
 			loadFonts()
 			if fontErr != nil {
 				panic(fontErr)
 			}
-			toks := decode(i, len(tokens))
+			toks := decode(i, baseTokens)
 			if faceMode == 3 && len(toks) < 3 {
 				r.Outcome("rich-text-needs-3-tokens(skipped)")
 				return
@@ -960,7 +1058,7 @@ func verticalFamily(faceMode, maxLen int, withMiddle bool) fw.Family {
 			}
 		},
 		Desc: func(i int64) string {
-			toks := decode(i, len(tokens))
+			toks := decode(i, baseTokens)
 			return fmtTokens(toks) + " features=" + features(toks)
 		},
 	}
@@ -982,7 +1080,7 @@ func families(tier string) []fw.Family {
 		fs = append(fs, verticalFamily(2, n-1, true))
 	}
 	fs = append(fs, verticalFamily(3, n-1, true))
-	fs = append(fs, breaksFamily(), textLineFamily())
+	fs = append(fs, breaksFamily(), textLineFamily(), punctFamily(0, n+1), punctFamily(1, n+1))
 	if only := os.Getenv("C16_ONLY"); only != "" { // development aid
 		var sel []fw.Family
 		for _, f := range fs {
